@@ -795,6 +795,47 @@ pub fn run(ctx: &Ctx) -> i32 {
             ctx.violation(&f.key, &f.what, f.case);
         }
     }
+    // a set of 2^20 + 12 items, the 12 heavier ones last or first (a per-call block size, buffer bound or counter that only
+    // matters beyond a million entries): every entry point of the ProbMinHash3 family agrees with item-wise ProbMinHash3,
+    // ProbMinHash2's HashMap entry with its item-wise run, 3a-Sha's two entry points and two orders with each other
+    {
+        let n: u64 = (1 << 20) + 12;
+        let mut last: Vec<(u64, f64)> = (0..n).map(|i| (500_000_000 + i, if i < (1 << 20) { 1.0 } else { 3.0e4 * (1 + i - (1 << 20)) as f64 })).collect();
+        let mut first = last.clone();
+        first.rotate_right(12);
+        let m = 64;
+        let runs: Vec<(&str, Variant, Entry, bool)> = vec![
+            ("ProbMinHash3 item-wise, heavy last", Variant::P3, Entry::Item, false),
+            ("ProbMinHash3 item-wise, heavy first", Variant::P3, Entry::Item, true),
+            ("ProbMinHash3a IndexMap, heavy last", Variant::P3a, Entry::IdxMap, false),
+            ("ProbMinHash3a IndexMap, heavy first", Variant::P3a, Entry::IdxMap, true),
+            ("ProbMinHash3a HashMap", Variant::P3a, Entry::HashMap, false),
+            ("ProbMinHash3a two calls", Variant::P3a, Entry::Split(1 << 19), false),
+        ];
+        let outs: Vec<(&str, Option<Result<Out, String>>)> = runs.par_iter().map(|(name, v, e, hf)| (*name, run_variant(*v, *e, m, if *hf { &first } else { &last }))).collect();
+        st.execs += outs.len() as u64;
+        let reference = outs[0].1.clone();
+        for (name, o) in &outs[1..] {
+            if *o != reference {
+                ctx.violation(
+                    "not-a-set-function:huge-set",
+                    &format!("m={}: a weighted set of 2^20+12 items (2^20 of weight 1, 12 of weight 3e4..3.6e5) gives a different signature through '{}' than through '{}'", m, name, outs[0].0),
+                    json!({"kind": "huge"}),
+                );
+                break;
+            }
+        }
+        let sha: Vec<Option<Result<Out, String>>> = [(Entry::IdxMap, false), (Entry::IdxMap, true), (Entry::HashMap, false)].par_iter().map(|(e, hf)| run_variant(Variant::P3aShaU64, *e, m, if *hf { &first } else { &last })).collect();
+        let p2: Vec<Option<Result<Out, String>>> = [(Entry::Item, false), (Entry::HashMap, true)].par_iter().map(|(e, hf)| run_variant(Variant::P2, *e, m, if *hf { &first } else { &last })).collect();
+        st.execs += 5;
+        if sha[1] != sha[0] || sha[2] != sha[0] {
+            ctx.violation("not-a-set-function:huge-set", "ProbMinHash3aSha: a weighted set of 2^20+12 items gives different signatures through its entry points / orders", json!({"kind": "huge"}));
+        }
+        if p2[1] != p2[0] {
+            ctx.violation("not-a-set-function:huge-set", "ProbMinHash2: a weighted set of 2^20+12 items gives different signatures item-wise and through the HashMap entry", json!({"kind": "huge"}));
+        }
+        last.clear();
+    }
     // signature lengths around 2^16 (an index or counter narrower than usize shows there): one set of 12 items, all orders /
     // entry points of large_set_orders, ProbMinHash3 == ProbMinHash3a
     for v in VARIANTS {
@@ -900,7 +941,7 @@ pub fn run(ctx: &Ctx) -> i32 {
         "exhaustive": true,
         "evaluations": st.execs,
         "distinct_nontrivial": st.distinct_sigs,
-        "rule": "for ProbMinHash2, 3, 3a (Fnv and no-op hashers), 3a-Sha (u64 and String keys), m in {2,3,4,8,16,(33)}: every non-empty weighted set over 4 (5) items x weights {absent,0.5,1,3,1e-300,1e300}, ALL insertion orders, every entry point (hash_item, hash_wset, IndexMap, std HashMap), every 2-way batch split, every re-insertion of an already inserted pair at every later point; registers (hook H2) must equal the position-wise minimum and the signature the argmin of the REAL single-item runs (exact; bit-equal ties are classified and only checked for membership), every position holds an item of the set; plus forced near-ties (weights tuned from the real single-item runs so that two items differ by 1e-9 .. 3e-15 relative at a chosen position, both orders), weight scaling by 2^k, the union clause on sets up to 300 items, ProbMinHash3 == ProbMinHash3a on all 1295 sets and on hundreds of two-item sets at m = 5000, 2000, 3001 (12289), all subsets of 4 items in all orders with a placeholder object that is itself an item id, 40 (300) sets of 2000 / 300 / 50 items with 13 weight classes in forward / reversed / shuffled order through every entry point (m = 256 / 64 / 16, and n below m: 150 / 40 / 30 items at m = 256 / 64 / 1024; one 12-item set at m = 65535, 65536, 65537; one 70 000-item set at m = 16), and single items with weights down to the smallest normal float; distinct = distinct signatures",
+        "rule": "for ProbMinHash2, 3, 3a (Fnv and no-op hashers), 3a-Sha (u64 and String keys), m in {2,3,4,8,16,(33)}: every non-empty weighted set over 4 (5) items x weights {absent,0.5,1,3,1e-300,1e300}, ALL insertion orders, every entry point (hash_item, hash_wset, IndexMap, std HashMap), every 2-way batch split, every re-insertion of an already inserted pair at every later point; registers (hook H2) must equal the position-wise minimum and the signature the argmin of the REAL single-item runs (exact; bit-equal ties are classified and only checked for membership), every position holds an item of the set; plus forced near-ties (weights tuned from the real single-item runs so that two items differ by 1e-9 .. 3e-15 relative at a chosen position, both orders), weight scaling by 2^k, the union clause on sets up to 300 items, ProbMinHash3 == ProbMinHash3a on all 1295 sets and on hundreds of two-item sets at m = 5000, 2000, 3001 (12289), all subsets of 4 items in all orders with a placeholder object that is itself an item id, 40 (300) sets of 2000 / 300 / 50 items with 13 weight classes in forward / reversed / shuffled order through every entry point (m = 256 / 64 / 16, and n below m: 150 / 40 / 30 items at m = 256 / 64 / 1024; one 12-item set at m = 65535, 65536, 65537; one 70 000-item set at m = 16; one set of 2^20+12 items at m = 64 through 11 entry point / order combinations), and single items with weights down to the smallest normal float; distinct = distinct signatures",
         "weighted_sets": st.sets,
         "forced_near_ties": nears,
         "exact_ties_classified": st.ties,
@@ -934,6 +975,7 @@ pub fn replay(_ctx: &Ctx, case: &Value) -> Result<(bool, String), String> {
             };
             Ok((a != b || !member, format!("same as sorted order: {}; every position holds an item of the set: {}", a == b, member)))
         }
+        Some("huge") => Err("re-derived by running the check itself".into()),
         Some("large") => {
             let v = parse_variant(case["variant"].as_str().ok_or("variant")?).ok_or("variant")?;
             let m = case["m"].as_u64().ok_or("m")? as usize;
